@@ -23,7 +23,7 @@ WORKERS = {"quick": 4, "thorough": 16}
 WTESTS = {"groups": ['parser_chains'], "tests": ['tests/dec', 'tests/decay']}
 REQUIRED = {"product>=2x2-in-one-line": 30, "line-with>=3-multi-mode-daughters": 10, "line-without-daughters": 20, "decaying-alias-at-depth>=2": 10,
             "decaying-alias-top": 10, "non-decaying-alias": 20, "empty-block-daughter": 20, "same-decaying-daughter-twice": 20, "paths>=50": 20,
-            "corpus-mother": 20, "expand-after-chains-with-stable-set": 20, "two-decaying-names-of-one-particle": 5, "C10.expand.count_and_paths": 100}
+            "corpus-mother": 20, "expand-after-chains-with-stable-set": 20, "two-instances-queried-alternately": 20, "two-decaying-names-of-one-particle": 5, "C10.expand.count_and_paths": 100}
 ASSUMPTIONS = ["names have balanced parentheses and no blanks; table sets are acyclic", "default descriptor format while expanding"]
 
 
@@ -120,15 +120,22 @@ def check(ctx, p, T, m, al, wit, workload):
 
 def run(ctx):
     contracts.arm("parser_chains")
-    for _ in range(ctx.pick(120, 1200)):
-        stmts, T, parts, exp = C09.gen_tables(ctx)
+    prev = None
+    for it in range(ctx.pick(120, 1200)):
+        stmts, T, parts, exp = C09.gen_tables(ctx, same_names_as=(prev[2] if prev and it % 2 else None))
         text = L.render(stmts)
         wit = {"kind": "generated", "text": text}
         ok, res = ctx.guard("parse", wit, snapshot.make_parser, text)
         if not ok:
             continue
-        for m in parts[: ctx.pick(4, 6)]:
+        for j, m in enumerate(parts[: ctx.pick(4, 6)] + list(exp["derived"])[:1]):
             check(ctx, res[0], T, m, exp["aliases"], wit, "gen")
+            if prev and j < 2:
+                # two parser instances alive in one interpreter, queried alternately (the second often over the same particle names)
+                ctx.hit("two-instances-queried-alternately")
+                p0, T0, parts0, al0, wit0 = prev
+                check(ctx, p0, T0, parts0[j % len(parts0)], al0, {**wit0, "after_other_instance": text}, "earlier-instance")
+        prev = (res[0], T, parts, exp["aliases"], wit)
         if len(ctx.violations) >= ctx.max_violations:
             return
     from . import C01  # noqa: PLC0415
